@@ -32,10 +32,16 @@ ARGS = ["0", "1", "2", "-1", "-2", "3", "10", "100", "1/2", "-1/2", "7/2", "-7/2
         "1e300", "-1e300", "1e-300", "1.7976931348623157e308", "10^400", "-(10^400)", "10^400/3", "1/(10^400)", "2^53+1",
         "9007199254740993", "5!", "C(6,3)", "3!/4!", "123456789.123", "-123456789.5", "1e15", "1e16+1", "0.0", "-0.0",
         "pi", "pi/2", "e", "8", "1000", "1e22", "0.49999999999999994", "4503599627370497.5",
-        "pi*1e308", "1/1.5e-200/1.5e-200", "2.5*1e308", "1e308/0.1", "(0-2.5)*1e308"]
+        "pi*1e308", "1/1.5e-200/1.5e-200", "2.5*1e308", "1e308/0.1", "(0-2.5)*1e308",
+        # lazy values that are short products at a large offset (what is left after big factorials cancel)
+        "100000!/99998!", "1000001!/999999!", "3000000!/2999999!", "C(3000,2)", "20!/18!", "100001!/100000!/100000"]
 QARGS = ["90 deg", "180 deg", "45 deg", "2 rad", "-1 rad", "4 m", "-4 m", "(7/2) m", "-7/2 s", "2.5 kg", "0 m", "9 m^2", "1e3 m", "30 deg", "1 dozen"]
-BASES = ["-2", "0", "1/2", "1", "2", "e", "10", "0.9", "3", "1.0", "1/10"]
-EXPS = ["0", "1", "2", "3", "-1", "-2", "1/2", "-1/2", "1/3", "2.5", "-0.5", "0.5", "10", "100", "1000", "2/3"]
+BASES = ["-2", "0", "1/2", "1", "2", "e", "10", "0.9", "3", "1.0", "1/10",
+         # next to the excluded base 1 and next to 0: in the domain, whatever tolerance an equality test might use
+         "1.0000000001", "0.9999999999", "1.000000000000001", "1 + 1/10^12", "0.0000000001", "-0.0000000001"]
+EXPS = ["0", "1", "2", "3", "-1", "-2", "1/2", "-1/2", "1/3", "2.5", "-0.5", "0.5", "10", "100", "1000", "2/3",
+        # fractional exponents next to an integer (a negative base must still be rejected)
+        "2.0000000001", "1.0000000001", "-3.0000000001", "2.000000000000001", "1.9999999999", "3 + 1/10^12", "-1.0000000001", "0.0000000001"]
 
 
 def mp_ref(reqs):
